@@ -21,7 +21,7 @@ Theorem c17_transition_table :
   (ch_type h = ST_SYN -> state_table s h = TblDrop s) /\
   
   (ch_type h <> ST_RESET -> ch_type h <> ST_SYN -> v_state s = Closed ->
-     state_table s h = TblErr s (ErrBug BugRecvInClosed)) /\
+     state_table s h = TblDrop s) /\
   
   (ch_type h <> ST_RESET -> ch_type h <> ST_SYN -> v_state s = SynReceived ->
      state_table s h = TblErr s (ErrBug BugUnexpectedPacketInSynReceived)) /\
@@ -33,7 +33,10 @@ Theorem c17_transition_table :
      ch_ack h = wsub16 (v_seq_nr s) 1 ->
      state_table s h = TblContinue (set_state (restart_remote_inactivity_timer s) Established)) /\
   
-  (forall k, ch_type h = ST_FIN -> v_state s = SynAckSent k ->
+  (forall k, ch_type h = ST_FIN -> v_state s = SynAckSent k -> ~ in_seq s h ->
+     state_table s h = TblDrop s) /\
+  
+  (forall k, ch_type h = ST_FIN -> v_state s = SynAckSent k -> in_seq s h ->
      state_table s h = TblContinue (set_state s Closed)) /\
   
   (data_or_state (ch_type h) -> v_state s = Established -> state_table s h = TblContinue s) /\
@@ -176,13 +179,63 @@ Theorem c17_should_close_guard :
   unsent_data_exists s = false /\ is_local_fin_or_later (v_state s) = false.
 Proof. exact (should_close_guard). Qed.
 
-(* (c) FIN only after all accepted data, PROVIDED the last segmentation ran to its end (split_fresh); false without (D10) *)
+(* (c) FIN only after all accepted data, provided `unsegmented` is what the last segmentation computed
+   (split_fresh: ring length minus segmented length, saturating) *)
 Theorem c17_fin_after_all_data :
   forall s : vsock,
   should_close_on_own_initiative s = true -> split_fresh s ->
   Z.of_nat (length (ring (v_tx s))) <= ss_len_bytes (v_segs s) /\
   (forall g, In g (ss_segs (v_segs s)) -> sg_delivered g = true \/ seg_send_count g <> 0).
 Proof. exact (fin_after_all_data). Qed.
+
+(* (c) split_fresh is established by EVERY segmentation that looks at a non-empty send buffer before the
+   peer's FIN, the early return on an outstanding MTU probe included (repair of D10) *)
+Theorem c17_split_fresh_after :
+  forall (s s' : vsock),
+  split_tx_queue_into_segments cci s = SOk s' tt ->
+  is_remote_fin_or_later (v_state s) = false -> ring (v_tx s) <> [] -> split_fresh s'.
+Proof. exact (split_fresh_after cci). Qed.
+
+(* (c) with an empty send buffer segmentation only registers the dispatcher waker *)
+Theorem c17_split_empty_ring :
+  forall s : vsock,
+  ring (v_tx s) = [] ->
+  split_tx_queue_into_segments cci s = SOk (set_tx s (register_dispatcher_if_empty (v_tx s))) tt.
+Proof. exact (split_empty_ring cci). Qed.
+
+(* (c) send_tx_queue leaves `unsegmented`, the ring and the segmented length alone, unless it pops a failed
+   MTU probe and requests a restart of the poll *)
+Theorem c17_send_tx_queue_uframe :
+  forall s : vsock, sufr_r s (send_tx_queue cci s).
+Proof. exact (send_tx_queue_uframe cci). Qed.
+
+(* (c) FIN only after all accepted data with NO hypothesis on `unsegmented`: the composition
+   split_tx_queue_into_segments -> send_tx_queue -> should_close_on_own_initiative exactly as in poll_body
+   (a poll that looked at a non-empty send buffer before the peer's FIN) *)
+Theorem c17_fin_after_all_data_in_poll :
+  forall (s4 s5 s6 : vsock),
+  split_tx_queue_into_segments cci s4 = SOk s5 tt ->
+  is_remote_fin_or_later (v_state s4) = false -> ring (v_tx s4) <> [] ->
+  send_tx_queue cci s5 = SOk s6 tt -> v_restart s6 = false ->
+  should_close_on_own_initiative s6 = true ->
+  Z.of_nat (length (ring (v_tx s6))) <= ss_len_bytes (v_segs s6) /\
+  (forall g, In g (ss_segs (v_segs s6)) -> sg_delivered g = true \/ seg_send_count g <> 0).
+Proof. exact (fin_after_all_data_in_poll cci). Qed.
+
+(* (c) the number of the next new packet (our FIN's number to be) never moves backwards: send_data leaves
+   seq_nr alone or raises it to one past the segment just sent (repair of D13) *)
+Theorem c17_send_data_seq_nr_mono :
+  forall (s s' : vsock) h f r,
+  send_data s h f = SOk s' r ->
+  v_seq_nr s' = v_seq_nr s \/
+  (v_seq_nr s' = wadd16 (fs_seq f) 1 /\ seq_gt (wadd16 (fs_seq f) 1) (v_seq_nr s) = true /\
+   v_last_sent_seq_nr s' = fs_seq f).
+Proof. exact (send_data_seq_nr_mono). Qed.
+
+Theorem c17_send_data_err_seq_nr :
+  forall (s s' : vsock) h f e,
+  send_data s h f = SErr s' e -> v_seq_nr s' = v_seq_nr s.
+Proof. exact (send_data_err_seq_nr). Qed.
 
 (* (c) segmentation that runs to its end accounts for every byte *)
 Theorem c17_segment_loop_len :
@@ -191,11 +244,12 @@ Theorem c17_segment_loop_len :
   rem' = rem - (ss_len_bytes segs' - ss_len_bytes segs).
 Proof. exact (segment_loop_len). Qed.
 
-(* (d) an out-of-sequence FIN changes nothing *)
+(* (d) an out-of-sequence FIN changes nothing (also while our SYN-ACK is unanswered: repair of D19) *)
 Theorem c17_peer_fin_out_of_sequence :
   forall (s : vsock) m,
   ch_type (m_hdr m) = ST_FIN ->
-  (v_state s = Established \/ (exists f, v_state s = FinWait1 f) \/ v_state s = FinWait2) ->
+  ((exists k, v_state s = SynAckSent k) \/
+   v_state s = Established \/ (exists f, v_state s = FinWait1 f) \/ v_state s = FinWait2) ->
   ~ in_seq s (m_hdr m) ->
   process_incoming_message cci s m = SOk s on_ack_result_default.
 Proof. exact (peer_fin_out_of_sequence cci). Qed.
@@ -259,12 +313,13 @@ Proof. exact (body_rest_frame cci). Qed.
 
 End WithCC.
 
-(* refutations (faithful model; both reproduced on the real code, see tools/props/c17.py) *)
-Theorem c17_fin_overtakes_data_refuted : d10_witness = true.
-Proof. exact fin_overtakes_data_refuted. Qed.
+(* regressions: the witnesses of the repaired defects D10 and D13, same op lists: every predicate holds,
+   no FIN while 100 written bytes are unsegmented (D10); FIN numbered 104, above every data segment (D13) *)
+Theorem c17_fin_overtakes_data_regression : d10_regression_b = true.
+Proof. exact fin_overtakes_data_regression. Qed.
 
-Theorem c17_fin_number_collides_with_data_refuted : d13_witness = true.
-Proof. exact fin_number_collides_with_data_refuted. Qed.
+Theorem c17_fin_number_collides_with_data_regression : d13_regression_b = true.
+Proof. exact fin_number_collides_with_data_regression. Qed.
 
 Print Assumptions c17_transition_table.
 Print Assumptions c17_table_drop_unchanged.
@@ -278,6 +333,12 @@ Print Assumptions c17_transition.
 Print Assumptions c17_transition_noop.
 Print Assumptions c17_should_close_guard.
 Print Assumptions c17_fin_after_all_data.
+Print Assumptions c17_split_fresh_after.
+Print Assumptions c17_split_empty_ring.
+Print Assumptions c17_send_tx_queue_uframe.
+Print Assumptions c17_fin_after_all_data_in_poll.
+Print Assumptions c17_send_data_seq_nr_mono.
+Print Assumptions c17_send_data_err_seq_nr.
 Print Assumptions c17_segment_loop_len.
 Print Assumptions c17_peer_fin_out_of_sequence.
 Print Assumptions c17_peer_fin.
@@ -287,5 +348,5 @@ Print Assumptions c17_reset.
 Print Assumptions c17_reset_ok_recv_loop.
 Print Assumptions c17_poll_frame.
 Print Assumptions c17_body_rest_frame.
-Print Assumptions c17_fin_overtakes_data_refuted.
-Print Assumptions c17_fin_number_collides_with_data_refuted.
+Print Assumptions c17_fin_overtakes_data_regression.
+Print Assumptions c17_fin_number_collides_with_data_regression.
